@@ -7,15 +7,16 @@ From VF.C13 Require Import Model Proofs Proofs9 Proofs10.
 From Coq Require Import Lia ZifyBool ZifyN ZifyNat.
 Local Open Scope N_scope.
 
-Definition w16 (x : N) : N := x mod 65536.
+(* counters reduced modulo M (M = 2^w for w-bit unsigned counters) *)
+Definition wM (M x : N) : N := x mod M.
 
-Definition wrap_node (c : cnode) : cnode :=
-  mkC (cn_hash c) (cn_kids c) (cn_size c) (w16 (cn_parents c)) (map (fun p => (fst p, w16 (snd p))) (cn_ext c)).
+Definition wrap_nodeM (M : N) (c : cnode) : cnode :=
+  mkC (cn_hash c) (cn_kids c) (cn_size c) (wM M (cn_parents c)) (map (fun p => (fst p, wM M (snd p))) (cn_ext c)).
 
-Definition wrap16 (s : dbstate) : dbstate :=
-  mkDb (map wrap_node (db_nodes s)) (map (fun p => (fst p, w16 (snd p))) (db_meta s)) (db_disk s).
+Definition wrapM (M : N) (s : dbstate) : dbstate :=
+  mkDb (map (wrap_nodeM M) (db_nodes s)) (map (fun p => (fst p, wM M (snd p))) (db_meta s)) (db_disk s).
 
-(* one step of a schedule, unbounded counters / uint16 counters *)
+(* one step of a schedule, exact counters / counters modulo M *)
 Definition xstep (s : dbstate) (o : xop) : dbstate :=
   match o with
   | XInsert h b => db_insert s (h, b)
@@ -26,28 +27,40 @@ Definition xstep (s : dbstate) (o : xop) : dbstate :=
   | XCommit r => db_commit s r
   end.
 
-Definition xstep16 (s : dbstate) (o : xop) : dbstate :=
+Definition xstepM (M : N) (s : dbstate) (o : xop) : dbstate :=
   match o with
-  | XInsert _ _ | XRefMeta _ | XRefNode _ _ => wrap16 (xstep s o)
+  | XInsert _ _ | XRefMeta _ | XRefNode _ _ => wrapM M (xstep s o)
   | _ => xstep s o
   end.
 
-Definition run16 (ops : list xop) : dbstate := fold_left xstep16 ops db_empty.
+Definition runM (M : N) (ops : list xop) : dbstate := fold_left (xstepM M) ops db_empty.
 Definition runN (ops : list xop) : dbstate := fold_left xstep ops db_empty.
 
-(* all counters of a state are below 2^16 *)
-Definition fits16 (s : dbstate) : Prop :=
-  (forall x, In x (db_nodes s) -> cn_parents x < 65536 /\ forall p, In p (cn_ext x) -> snd p < 65536) /\
-  (forall p, In p (db_meta s) -> snd p < 65536).
+(* w-bit counters *)
+Definition runW (w : N) (ops : list xop) : dbstate := runM (2 ^ w) ops.
 
-Lemma wrap16_id : forall s, fits16 s -> wrap16 s = s.
+(* the 16-bit instance (the counters before the repair 8fe169d) *)
+Definition w16 : N -> N := wM 65536.
+Definition wrap16 : dbstate -> dbstate := wrapM 65536.
+Definition xstep16 : dbstate -> xop -> dbstate := xstepM 65536.
+Definition run16 : list xop -> dbstate := runM 65536.
+
+Lemma runW_16 : forall ops, runW 16 ops = run16 ops.
+Proof. reflexivity. Qed.
+
+(* all counters of a state are below M *)
+Definition fitsM (M : N) (s : dbstate) : Prop :=
+  (forall x, In x (db_nodes s) -> cn_parents x < M /\ forall p, In p (cn_ext x) -> snd p < M) /\
+  (forall p, In p (db_meta s) -> snd p < M).
+
+Lemma wrapM_id : forall M s, fitsM M s -> wrapM M s = s.
 Proof.
-  intros [nodes meta disk] [Hn Hm]. unfold wrap16. cbn [db_nodes db_meta db_disk] in *. f_equal.
+  intros M [nodes meta disk] [Hn Hm]. unfold wrapM. cbn [db_nodes db_meta db_disk] in *. f_equal.
   - rewrite <- (map_id nodes) at 2. apply map_ext_in. intros x Hx. destruct (Hn x Hx) as [Hp He].
-    destruct x as [h k sz p e]. unfold wrap_node. cbn [cn_hash cn_kids cn_size cn_parents cn_ext] in *. f_equal.
-    + unfold w16. apply N.mod_small. exact Hp.
-    + rewrite <- (map_id e) at 2. apply map_ext_in. intros [a c] Ha. cbn. f_equal. unfold w16. apply N.mod_small. apply (He _ Ha).
-  - rewrite <- (map_id meta) at 2. apply map_ext_in. intros [a c] Ha. cbn. f_equal. unfold w16. apply N.mod_small. apply (Hm _ Ha).
+    destruct x as [h k sz p e]. unfold wrap_nodeM. cbn [cn_hash cn_kids cn_size cn_parents cn_ext] in *. f_equal.
+    + unfold wM. apply N.mod_small. exact Hp.
+    + rewrite <- (map_id e) at 2. apply map_ext_in. intros [a c] Ha. cbn [fst snd]. f_equal. unfold wM. apply N.mod_small. apply (He _ Ha).
+  - rewrite <- (map_id meta) at 2. apply map_ext_in. intros [a c] Ha. cbn [fst snd]. f_equal. unfold wM. apply N.mod_small. apply (Hm _ Ha).
 Qed.
 
 (* ---- the wrap-around, concretely --------------------------------------------------- *)
@@ -91,11 +104,13 @@ Proof. reflexivity. Qed.
 Lemma refs_16 : forall k, fold_left xstep16 (repeat (XRefMeta r) (S k)) (one 0 []) = one (w16 (N.of_nat (S k))) [(r, w16 (N.of_nat (S k)))].
 Proof.
   induction k as [|k IH].
-  - cbn [repeat fold_left xstep16]. rewrite ref_one by (left; reflexivity). reflexivity.
+  - change (fold_left xstep16 (repeat (XRefMeta r) 1) (one 0 [])) with (wrap16 (xstep (one 0 []) (XRefMeta r))).
+    rewrite ref_one by (left; reflexivity). reflexivity.
   - change (repeat (XRefMeta r) (S (S k))) with (XRefMeta r :: repeat (XRefMeta r) (S k)).
-    rewrite (repeat_cons (S k) (XRefMeta r)). rewrite fold_left_app. rewrite IH. cbn [fold_left xstep16].
+    rewrite (repeat_cons (S k) (XRefMeta r)). rewrite fold_left_app. rewrite IH.
+    match goal with |- fold_left xstep16 [XRefMeta r] ?st = _ => change (fold_left xstep16 [XRefMeta r] st) with (wrap16 (xstep st (XRefMeta r))) end.
     rewrite ref_one by (right; eexists; reflexivity). cbn [ext_get]. rewrite list_eqb_refl. rewrite wrap_one.
-    assert (forall x, w16 (w16 x + 1) = w16 (x + 1)) as Hw by (intro x; unfold w16; rewrite N.add_mod_idemp_l by lia; reflexivity).
+    assert (forall x, w16 (w16 x + 1) = w16 (x + 1)) as Hw by (intro x; unfold w16, wM; rewrite N.add_mod_idemp_l by lia; reflexivity).
     rewrite !Hw. replace (N.of_nat (S k) + 1) with (N.of_nat (S (S k))) by lia. reflexivity.
 Qed.
 
@@ -151,7 +166,7 @@ Lemma uint16_wrap_loses_node :
   ~ avail (run16 wrap_schedule) r /\
   ext_get (db_meta (runN wrap_schedule)) r = 65535 /\ avail (runN wrap_schedule) r.
 Proof.
-  unfold run16, runN, wrap_schedule.
+  unfold run16, runM, runN, wrap_schedule. change (xstepM 65536) with xstep16.
   assert (exists k, N.to_nat 65536 = S k /\ N.of_nat (S k) = 65536) as [k [Ek Ek2]].
   { exists (N.to_nat 65535). split; lia. }
   rewrite Ek. rewrite (run16_wrap k Ek2), (runN_wrap k Ek2). split; [|split].
@@ -177,9 +192,9 @@ Proof. induction l as [|y l IH]; intros b Hb; cbn; [lia|]. pose proof (Hb y (or_
 Lemma lmax_app : forall a b, lmax (a ++ b) = N.max (lmax a) (lmax b).
 Proof. induction a as [|x a IH]; intro b; cbn; [lia|]. rewrite IH. lia. Qed.
 
-Lemma fits16_of_max : forall s, maxctr s < 65536 -> fits16 s.
+Lemma fitsM_of_max : forall M s, maxctr s < M -> fitsM M s.
 Proof.
-  intros s Hm. unfold maxctr in Hm. split.
+  intros M s Hm. unfold maxctr in Hm. split.
   - intros x Hx. pose proof (lmax_in _ _ (in_map nctr _ _ Hx)) as Hn.
     assert (cn_parents x <= nctr x) as H1 by (unfold nctr; lia).
     assert (lmax (map snd (cn_ext x)) <= nctr x) as H2 by (unfold nctr; lia).
@@ -366,25 +381,35 @@ Proof.
 Qed.
 
 (* below 2^16 reference events the uint16 code and the exact model run in lock step *)
-Lemma xstep16_eq : forall s o, maxctr s + xcost o < 65536 -> xstep16 s o = xstep s o.
+Lemma xstepM_eq : forall M s o, maxctr s + xcost o < M -> xstepM M s o = xstep s o.
 Proof.
-  intros s o Hb. pose proof (xstep_max s o) as Hm. destruct o; try reflexivity; apply wrap16_id, fits16_of_max; lia.
+  intros M s o Hb. pose proof (xstep_max s o) as Hm. destruct o; try reflexivity; apply wrapM_id, fitsM_of_max; lia.
 Qed.
 
-Lemma run16_eq : forall ops s, maxctr s + events ops < 65536 ->
-  fold_left xstep16 ops s = fold_left xstep ops s.
+Lemma runM_eq : forall M ops s, maxctr s + events ops < M ->
+  fold_left (xstepM M) ops s = fold_left xstep ops s.
 Proof.
-  induction ops as [|o ops IH]; intros s Hb; [reflexivity|].
+  intros M. induction ops as [|o ops IH]; intros s Hb; [reflexivity|].
   change (events (o :: ops)) with (xcost o + events ops) in Hb.
-  change (fold_left xstep16 (o :: ops) s) with (fold_left xstep16 ops (xstep16 s o)).
+  change (fold_left (xstepM M) (o :: ops) s) with (fold_left (xstepM M) ops (xstepM M s o)).
   change (fold_left xstep (o :: ops) s) with (fold_left xstep ops (xstep s o)).
-  pose proof (xstep_max s o) as Hm. rewrite xstep16_eq by lia. apply IH. lia.
+  pose proof (xstep_max s o) as Hm. rewrite xstepM_eq by lia. apply IH. lia.
+Qed.
+
+(* below M reference events the counters modulo M and the exact model run in lock step *)
+Lemma counter_guard : forall M ops, events ops < M ->
+  runM M ops = runN ops /\ maxctr (runN ops) <= events ops.
+Proof.
+  intros M ops Hb. unfold runM, runN. split.
+  - apply runM_eq. change (maxctr db_empty) with 0. lia.
+  - pose proof (runN_max ops db_empty) as Hm. change (maxctr db_empty) with 0 in Hm. lia.
 Qed.
 
 Lemma uint16_guard : forall ops, events ops < 65536 ->
   run16 ops = runN ops /\ maxctr (runN ops) <= events ops.
-Proof.
-  intros ops Hb. unfold run16, runN. split.
-  - apply run16_eq. change (maxctr db_empty) with 0. lia.
-  - pose proof (runN_max ops db_empty) as Hm. change (maxctr db_empty) with 0 in Hm. lia.
-Qed.
+Proof. intros ops Hb. apply (counter_guard 65536 ops Hb). Qed.
+
+(* the width the repaired code uses *)
+Lemma uint32_guard : forall ops, events ops < 4294967296 ->
+  runW 32 ops = runN ops /\ maxctr (runN ops) <= events ops.
+Proof. intros ops Hb. unfold runW. change (2 ^ 32) with 4294967296. apply (counter_guard 4294967296 ops Hb). Qed.
